@@ -102,6 +102,13 @@ func buildXML() []byte {
 	b.WriteString(`<?xml version="1.0" encoding="UTF-8"?>` + "\n<osm version=\"0.6\" generator=\"verif\">\n")
 	for i := 1; i <= 6; i++ {
 		fmt.Fprintf(&b, " <node id=\"%d\" lat=\"%d.5\" lon=\"-%d.25\" version=\"%d\" visible=\"true\"><tag k=\"name\" v=\"node number %d with some padding text to make the document longer\"/></node>\n", i, i, i, i, i)
+		if i == 2 || i == 4 {
+			// a long stretch that yields no object: unknown elements and comments
+			// (a Scan in progress must still notice a cancellation here)
+			for j := 0; j < 16; j++ {
+				fmt.Fprintf(&b, " <gpx_file id=\"%d\" name=\"trace %d\" visibility=\"public\"/><!-- nothing to see here, number %d -->\n", j, j, j)
+			}
+		}
 	}
 	b.WriteString("</osm>\n")
 	return []byte(b.String())
@@ -164,7 +171,7 @@ func scenario(h history, bound int) vexplore.Scenario {
 					ps = osmpbf.New(ctx, rd, h.Procs)
 					s = ps
 				} else {
-					rd = &pbfscen.Reader{Data: xmlDoc, MaxChunk: 48}
+					rd = &pbfscen.Reader{Data: xmlDoc, MaxChunk: 160}
 					if h.Damaged {
 						rd.Data = xmlDamaged
 					}
@@ -376,10 +383,10 @@ func scenario(h history, bound int) vexplore.Scenario {
 					}
 				}
 				// XML: a Scan in progress when a second thread cancels may finish its
-				// element (about 200 bytes here); judged when at least half of the
+				// element (about 200 bytes here, read in 160-byte chunks: 480 bytes allowed); judged when at least half of the
 				// document was unread at the stop.
 				if h.Format == "xml" && posAtStop >= 0 && len(rd.Data)-posAtStop >= len(rd.Data)/2 {
-					if more := rd.Pos - posAtStop; more > 300 {
+					if more := rd.Pos - posAtStop; more > 480 {
 						add("reads-on-after-stop", fmt.Sprintf("the XML scanner consumed %d more bytes after the stop (%d of %d consumed at the stop)", more, posAtStop, len(rd.Data)))
 					}
 				}
@@ -417,7 +424,7 @@ func main() {
 	kit.Main("C07", "model_checking", func(r *kit.Run) {
 		r.Rule("call histories (Header|Scan)^k ; stop in {Close, cancel, cancel from a second thread, cancel then Close, Close then cancel} ; post calls over {Scan, Err, Close, Header}; " +
 			"family E: damaged input (error recorded, then stop: Err keeps the earlier error), D=1; family S: fixed post sequence SECSEH, k in a grid, every schedule with <= D deviations, both priority configurations; family H: every post sequence of length <= 2 (quick) / 3 (thorough) and every k, default schedules (D=0); " +
-			"PBF input: header + 6 data blocks, XML input: 6 nodes read in 48-byte chunks; non-vacuous = the stop was issued with >= 4 file blocks unread (PBF) or before the end (XML); " +
+			"PBF input: header + 6 data blocks, XML input: 6 nodes and two 1.6 KB stretches of unknown elements and comments, read in 160-byte chunks; non-vacuous = the stop was issued with >= 4 file blocks unread (PBF) or before the end (XML); " +
 			"distinct_nontrivial = distinct complete operation sequences among non-vacuous executions")
 		r.Assume("promptness is a block count: the reader may begin at most 2 file blocks after the cancellation took effect (measured atomically at the cancelling operation); wall-clock latency is not measured")
 		r.Assume("a Header/Scan that first starts the decoder AFTER the stop may read the header block (and one more): it falls under the same 2-block allowance; no final Close is issued, so a thread that survives the stop is a leak")
